@@ -67,6 +67,8 @@ def cmd_check(a):
     runner = None
     need_native = bool(symbols)
     plain_functions = set(P.get("functions", ()))
+    nt_path = os.path.join(VERIF, "contracts", "not_translated.json")
+    expected_untranslated = set(json.load(open(nt_path))) if os.path.exists(nt_path) else set()
     if need_native:
         so = native.build_kernels()
         runner = native.KernelRunner(so)
@@ -81,6 +83,10 @@ def cmd_check(a):
             fu["symbols"].append(sym_)
             if not r["unit_ok"]:
                 notes.append("%s: %s" % (sym_, "; ".join(r["notes"])))
+                if sym_ not in expected_untranslated:
+                    # a unit that was under contract on the unchanged tree can no longer be translated or its
+                    # contract no longer binds to the code: coverage is lost, which is undecided, not a pass
+                    undecided.append("%s: unit no longer translatable (%s)" % (sym_, "; ".join(r["notes"])[:200]))
             refuted = []
             for o in r["obligations"]:
                 all_obs.append(o)
